@@ -105,6 +105,16 @@ class Model:
                 ev.append(Ev("write", str(bufsym[0]), norm(lo), norm(ln), c.loops, c.guards, c.line, c.node["id"], cal, value=val)); ev[-1].seq = c.seq + 0.5
                 if cal == "std::copy_n":
                     ev.append(Ev("read-src", str(c.args[0]), None, norm(ln), c.loops, c.guards, c.line, c.node["id"], "copy source", value=c.args[0])); ev[-1].seq = c.seq + 0.25
+            elif cal == "std::transform" and len(c.args) >= 4 and c.args[0] is not None and c.args[1] is not None and c.args[-2] is not None:
+                # std::transform(first, last, dst, f): writes last-first values f(x) to dst -- not the values themselves
+                dst = c.args[-2]
+                bufsym = [x for x in dst.free_symbols if str(x).startswith("_") and sp.expand(dst).coeff(x, 1) == 1]
+                if len(bufsym) == 1:
+                    lo = sp.expand(dst - bufsym[0])
+                    ev.append(Ev("write", str(bufsym[0]), norm(lo), norm(sp.expand(c.args[1] - c.args[0])), c.loops, c.guards, c.line, c.node["id"], "std::transform", value=None))
+                    ev[-1].seq = c.seq + 0.5
+                    ev.append(Ev("read-src", str(c.args[0]), None, norm(sp.expand(c.args[1] - c.args[0])), c.loops, c.guards, c.line, c.node["id"], "transform source", value=c.args[0]))
+                    ev[-1].seq = c.seq + 0.25
             elif cal in ("memset", "std::memset"):
                 # memset(p, 0, BYTES) clears BYTES/sizeof(element) elements: a byte count written without the element size clears a part only
                 dst, val, nbytes = c.args[0], c.args[1], c.args[2]
